@@ -22,6 +22,84 @@ pub struct ElemP<const P: usize> {
 }
 pub type Elem = ElemP<0>;
 pub type Elem40 = ElemP<3>;
+/// a page-sized drop-tracking element: a couple of thousand cells are 8 MiB and more
+pub type Elem4K = ElemP<512>;
+
+/// A WORD-sized drop-tracking element (the layout class of Box / Rc / Arc handles): 8 bytes, serial in 32 bits, origin
+/// and a check value in 16 bits each.  Only for cases whose ids fit 16 bits (the TLC-emitted small cases).
+pub struct Elem8 {
+    pub serial: u32,
+    pub origin: u16,
+    pub magic: u16,
+}
+impl Elem8 {
+    pub fn new(origin: u32) -> Elem8 {
+        Elem8 { serial: ledger::create(origin) as u32, origin: origin as u16, magic: 0x7D0D }
+    }
+}
+impl Clone for Elem8 {
+    fn clone(&self) -> Elem8 {
+        fault::tick(Site::Clone);
+        Elem8::new(self.origin as u32)
+    }
+}
+impl Default for Elem8 {
+    fn default() -> Elem8 {
+        fault::tick(Site::Default);
+        Elem8::new(0)
+    }
+}
+impl Drop for Elem8 {
+    fn drop(&mut self) {
+        ledger::on_drop(self.serial as u64, self.magic == 0x7D0D);
+        if !std::thread::panicking() {
+            fault::tick(Site::Drop);
+        }
+    }
+}
+impl PartialEq for Elem8 {
+    fn eq(&self, o: &Elem8) -> bool {
+        self.origin == o.origin
+    }
+}
+impl Eq for Elem8 {}
+impl std::hash::Hash for Elem8 {
+    fn hash<H: std::hash::Hasher>(&self, h: &mut H) {
+        self.origin.hash(h)
+    }
+}
+impl PartialOrd for Elem8 {
+    fn partial_cmp(&self, o: &Elem8) -> Option<Ordering> {
+        Some(self.cmp(o))
+    }
+}
+impl Ord for Elem8 {
+    fn cmp(&self, o: &Elem8) -> Ordering {
+        fault::tick(Site::Cmp);
+        (self.origin % 3).cmp(&(o.origin % 3))
+    }
+}
+impl std::fmt::Debug for Elem8 {
+    fn fmt(&self, f: &mut std::fmt::Formatter<'_>) -> std::fmt::Result {
+        write!(f, "e{}#{}", self.origin, self.serial)
+    }
+}
+
+/// A one-byte Copy element whose equality and hash are SEMANTIC (case-insensitive letters): equal values have different
+/// bytes, so hashing the representation instead of the value breaks "equal arrays hash equally".
+#[derive(Clone, Copy, Debug, Default)]
+pub struct Ci8(pub u8);
+impl PartialEq for Ci8 {
+    fn eq(&self, o: &Ci8) -> bool {
+        self.0.to_ascii_lowercase() == o.0.to_ascii_lowercase()
+    }
+}
+impl Eq for Ci8 {}
+impl std::hash::Hash for Ci8 {
+    fn hash<H: std::hash::Hasher>(&self, h: &mut H) {
+        self.0.to_ascii_lowercase().hash(h)
+    }
+}
 
 impl<const P: usize> ElemP<P> {
     pub fn new(origin: u32) -> Self {
@@ -381,6 +459,25 @@ impl<const P: usize> CellT for ElemP<P> {
     }
     fn magic_ok(&self) -> bool {
         self.magic == MAGIC && self.pad.iter().all(|&w| w == self.origin as u64 ^ 0x5A5A_5A5A)
+    }
+}
+
+impl CellT for Elem8 {
+    const KIND: &'static str = "elem8";
+    const TRACKED: bool = true;
+    const HAS_SERIAL: bool = true;
+    const MAX_ORIGIN: u32 = 65535;
+    fn make(origin: u32) -> Elem8 {
+        Elem8::new(origin)
+    }
+    fn origin(&self) -> u32 {
+        self.origin as u32
+    }
+    fn serial(&self) -> u64 {
+        self.serial as u64
+    }
+    fn magic_ok(&self) -> bool {
+        self.magic == 0x7D0D
     }
 }
 
